@@ -8,6 +8,7 @@ import (
 	"math/big"
 	"math/rand"
 	"os"
+	"strings"
 	"sync"
 	"sync/atomic"
 	"time"
@@ -225,6 +226,10 @@ func (w *World) Violate(prop, sig, detail string) {
 	if prop == "C01" && w.Report["C07"] && w.TruncatedOnce && (sig == "confirmed-overdraft/validated" || sig == "confirmed-overdraft/root-shortcut") {
 		// C07: "later transfers are validated against the same funds as before"
 		w.Violate("C07", "post-truncation/"+sig, detail)
+	}
+	if w.Report["C05"] && (prop == "C07" || prop == "C02") && (strings.HasPrefix(sig, "checkpoint-funds-differ") || strings.HasPrefix(sig, "balance-changed") || strings.HasPrefix(sig, "supply-") || strings.HasPrefix(sig, "reported-balance")) && !strings.HasPrefix(sig, "balance-changed/side-tip") {
+		// C05: "no sequence of transfers can create or destroy value through wrap-around"
+		w.Violate("C05", "value-not-conserved-in-ledger/"+sig, detail)
 	}
 	if !w.Report[prop] {
 		// observed by an oracle of another property than the one under check: counted, not reported
